@@ -6,5 +6,5 @@ W=/tmp/tryrepo.$$
 git -C /repo worktree add --detach $W HEAD -q || exit 9
 trap 'git -C /repo worktree remove --force $W; git -C /repo worktree prune' EXIT
 (cd $W && (git apply "$P" 2>/dev/null || patch -p1 --fuzz=3 --no-backup-if-mismatch < "$P" >/dev/null)) || { echo "patch does not apply"; exit 3; }
-for c in "$@"; do VERIF_REPO=$W VERIF_SCRATCH=/tmp/tryscratch.$$ /verif/check $c quick | grep -E "VIOLATION|KNOWN|ERROR|INCONCL|WITNESS|tier=" | cut -c1-260 | awk 'NR<=4 || /tier=/'; done
+for c in "$@"; do VERIF_REPO=$W VERIF_SCRATCH=/tmp/tryscratch.$$ /verif/check $c quick | grep -E "VIOLATION|KNOWN|ERROR|INCONCL|WITNESS|MISMATCH|tier=" | cut -c1-260 | awk 'NR<=4 || /tier=/'; done
 rm -rf /tmp/tryscratch.$$
